@@ -686,6 +686,10 @@ func (c *compiler) evalCallExpression(node *ast.CallExpression) (interface{}, er
 			mname = i.Value
 		}
 
+		if !rc.IsValid() {
+			return nil, fmt.Errorf("'%s' is nil, cannot call its method '%s' (%s.%s)", node.Callee.String(), mname, node.Callee.String(), mname)
+		}
+
 		rv = rc.MethodByName(mname)
 		if !rv.IsValid() && rc.Type().Kind() != reflect.Ptr {
 			ptr := reflect.New(reflect.TypeOf(c))
